@@ -107,6 +107,14 @@ bitmap (the model's explicit `panic` result is unreachable). -/
 theorem ops_never_crash (bm : Bitmap) (hI : Inv bm) (f : Nat) : (free bm f).2 ≠ .panic :=
   free_never_panics hI f
 
+/-- **init_error_paths** — when one of the two vmm seams fails, initialisation returns that error
+(or out-of-memory if the early allocator runs dry first); it never reports success in that case. -/
+theorem init_error_paths (m : List Region) (b : Boot) (mf : Option Nat) :
+    (bitmapInit m b false mf).outcome = .reserveErr ∧
+    ((metaPages m mf (requiredBytes (poolsOf m) / pageSize) 0 b).2 ≠ .ok →
+      (bitmapInit m b true mf).outcome = .oom ∨ (bitmapInit m b true mf).outcome = .mapErr) :=
+  Firefly.Pmm.init_error_paths m b mf
+
 /-! ## Non-vacuity -/
 
 def exMap : List Region :=
